@@ -400,6 +400,41 @@ func splitCall(p *canvas.Path, ts []float64) (ps []*canvas.Path, pm any) {
 	return ps, nil
 }
 
+// boundariesAwayFromCuts counts the boundaries between consecutive sub-paths of p (arc length measured by the
+// independent evaluator) that are farther than tol from every cut position.
+func (x *ctxInfo) boundariesAwayFromCuts(p *canvas.Path, ts []float64, tol float64) int {
+	segs, err := oracle.Decode(p.Data())
+	if err != nil {
+		return 0
+	}
+	nsub := 0
+	for _, sg := range segs {
+		if sg.Sub+1 > nsub {
+			nsub = sg.Sub + 1
+		}
+	}
+	n, cum := 0, 0.0
+	for j := 0; j+1 < nsub; j++ {
+		var sub []oracle.Seg
+		for _, sg := range segs {
+			if sg.Sub == j {
+				sub = append(sub, sg)
+			}
+		}
+		cum += oracle.RefinedLength(sub, fine/2)
+		away := true
+		for _, t := range ts {
+			if math.Abs(t-cum) <= tol {
+				away = false
+			}
+		}
+		if away {
+			n++
+		}
+	}
+	return n
+}
+
 func countMoves(ps []*canvas.Path) (moves int) {
 	for _, q := range ps {
 		segs, _ := oracle.Decode(q.Data())
@@ -618,8 +653,11 @@ func (x *ctxInfo) checkSplitCurves(p *canvas.Path, length float64, lengthOK bool
 		add("splitat:panic("+latgeo.PanicClass(pm)+")"+tag, fmt.Sprintf("SplitAt panics: %v; %s", pm, where))
 		return
 	}
-	if x.multi && countMoves(ps) == len(ps) {
-		add("splitat:subpath-moveto-missing+multi-subpath", fmt.Sprintf("%d pieces, none starts a second sub-path although the path has %d sub-paths; %s", len(ps), len(s.Path), where))
+	// Every sub-path boundary that does not coincide with a cut must show up as a further MoveTo inside a piece. A cut
+	// within the length band of a boundary may legitimately be placed on it (then the next piece simply starts with the
+	// sub-path's MoveTo), so such boundaries are not demanded.
+	if x.multi && countMoves(ps) < len(ps)+x.boundariesAwayFromCuts(p, ts, band*length) {
+		add("splitat:subpath-moveto-missing+multi-subpath", fmt.Sprintf("%d pieces with %d MoveTo commands in total although the path has %d sub-paths whose boundaries are not cut positions; %s", len(ps), countMoves(ps), len(s.Path), where))
 		return
 	}
 	tolP := 1e-9 * x.size
